@@ -385,9 +385,9 @@ const InstInfo _inst_info_table[] = {
   INST(Stlrb            , BaseRM_NoImm       , (0b0000100010011111111111, kW , kZR, 0 )                                              , kRWI_RW   , 0                         , 18 ), // #327
   INST(Stlrh            , BaseRM_NoImm       , (0b0100100010011111111111, kW , kZR, 0 )                                              , kRWI_RW   , 0                         , 19 ), // #328
   INST(Stlxp            , BaseStxp           , (0b1000100000100000100000, kWX, 30)                                                   , kRWI_WRRX , 0                         , 0  ), // #329
-  INST(Stlxr            , BaseAtomicOp       , (0b1000100000000000111111, kWX, 30, 1)                                                , kRWI_WRX  , 0                         , 108), // #330
-  INST(Stlxrb           , BaseAtomicOp       , (0b0000100000000000111111, kW , 0 , 1)                                                , kRWI_WRX  , 0                         , 109), // #331
-  INST(Stlxrh           , BaseAtomicOp       , (0b0100100000000000111111, kW , 0 , 1)                                                , kRWI_WRX  , 0                         , 110), // #332
+  INST(Stlxr            , BaseStx            , (0b1000100000000000111111, kWX, 30)                                                   , kRWI_WRW  , 0                         , 3  ), // #330
+  INST(Stlxrb           , BaseStx            , (0b0000100000000000111111, kW , 0 )                                                   , kRWI_WRW  , 0                         , 4  ), // #331
+  INST(Stlxrh           , BaseStx            , (0b0100100000000000111111, kW , 0 )                                                   , kRWI_WRW  , 0                         , 5  ), // #332
   INST(Stnp             , BaseLdpStp         , (0b0010100000, 0           , kWX, 31, 2)                                              , kRWI_RRW  , 0                         , 4  ), // #333
   INST(Stp              , BaseLdpStp         , (0b0010100100, 0b0010100010, kWX, 31, 2)                                              , kRWI_RRW  , 0                         , 5  ), // #334
   INST(Str              , BaseLdSt           , (0b1011100100, 0b10111000000, 0b10111000001, 0         , kWX, 30, 2, Inst::kIdStur)   , kRWI_RW   , 0                         , 6  ), // #335
@@ -1381,10 +1381,13 @@ const BaseShift baseShift[8] = {
   { 0b0001101011000000001011, 0b0000000000000000000000, 1 }  // rorv
 };
 
-const BaseStx baseStx[3] = {
+const BaseStx baseStx[6] = {
   { 0b1000100000000000011111, kWX, 30 }, // stxr
   { 0b0000100000000000011111, kW , 0  }, // stxrb
-  { 0b0100100000000000011111, kW , 0  }  // stxrh
+  { 0b0100100000000000011111, kW , 0  }, // stxrh
+  { 0b1000100000000000111111, kWX, 30 }, // stlxr
+  { 0b0000100000000000111111, kW , 0  }, // stlxrb
+  { 0b0100100000000000111111, kW , 0  }  // stlxrh
 };
 
 const BaseStxp baseStxp[2] = {
